@@ -211,6 +211,31 @@ static long __attribute__((noinline)) chain_count(void) {
   return k;
 }
 
+/* bulk: thousands of Nodes, every keep_mod-th one referenced from a rooted Array of Ref (ids 1000 + i).  The registry goes
+   through many of its sizes while it grows and shrinks. */
+static uintptr_t* bulkp; static long bulkn; static int bulkmod;
+static void __attribute__((noinline)) bulk_build(long n, int keep_mod, volatile var* slot) {
+  bulkp = realloc(bulkp, (size_t)n * sizeof *bulkp); bulkn = n; bulkmod = keep_mod;
+  var keep = new(Array, Ref); *slot = keep;
+  for (long i = 0; i < n; i++) {
+    var o = new(Node, $I(1000 + i));
+    bulkp[i] = (uintptr_t)o ^ PMASK;
+    if (i % keep_mod == 0) push(keep, $R(o));
+  }
+}
+static void __attribute__((noinline)) bulk_count(int rooted, long* lost, long* twice, long* stale, long* gone) {
+  var gc = current(GC); *lost = *twice = *stale = *gone = 0;
+  for (long i = 0; i < bulkn; i++) {
+    var o = (var)(bulkp[i] ^ PMASK); long long fc = fin_count[1000 + i];
+    if (fc > 1) (*twice)++;
+    if (rooted && i % bulkmod == 0) {
+      struct Node* nd = o;
+      if (fc != 0 || nd->canary != NODE_CANARY || nd->id != 1000 + i || !mem(gc, o)) (*lost)++;
+    } else if (fc >= 1) { (*gone)++; }
+    else if (!mem(gc, o)) (*stale)++;                      /* neither finalised nor registered any more: dropped unfinalised */
+  }
+}
+
 static int kind_of(const char* s) { for (int k = 1; k <= K_TREEK; k++) if (!strcmp(s, KN[k])) return k; return 0; }
 
 static int wfd = 1;
@@ -227,7 +252,9 @@ static void __attribute__((destructor)) after_exit(void) {
       if (fin_count[i] > 1) twice[nt++] = i;
     }
   }
-  ev_ints("never", never, nn); ev_ints("twice", twice, nt);
+  long bulknever = 0, bulktwice = 0;
+  for (long i = 0; i < bulkn; i++) { if (fin_count[1000 + i] == 0) bulknever++; if (fin_count[1000 + i] > 1) bulktwice++; }
+  ev_ints("never", never, nn); ev_ints("twice", twice, nt); ev_int("bulknever", bulknever); ev_int("bulktwice", bulktwice);
   ev_end(); ev_flush();
 }
 
@@ -332,6 +359,19 @@ int main(int argc, char** argv) {
       HC_TRY(do_collect(0));
       kept = chain_count();
       ev_begin("chain"); ev_int("n", n); ev_int("kept", kept); ev_int("rooted", 0); ev_str("exc", hc_exc); ev_int("line", cur_line); ev_end();
+    } else if (hc_is(0, "bulk")) {             /* bulk <n> <keep_mod> : build, collect rooted, drop, collect (n <= 60000) */
+      long n = (long)hc_int(1); int km = (int)hc_int(2); if (n > 60000) n = 60000; if (km < 1) km = 1;
+      long lost, twice, stale, gone;
+      HC_TRY(bulk_build(n, km, &roots[30]); scrub(); do_collect(0); do_collect(0));
+      bulk_count(1, &lost, &twice, &stale, &gone);
+      ev_begin("bulk"); ev_int("n", n); ev_int("rooted", 1); ev_int("lost", lost); ev_int("twice", twice); ev_int("stale", stale); ev_int("gone", gone);
+      ev_str("exc", hc_exc); ev_int("line", cur_line); ev_end(); ev_flush();
+      hc_exc = "";
+      roots[30] = NULL; scrub();
+      HC_TRY(do_collect(0); do_collect(1));
+      bulk_count(0, &lost, &twice, &stale, &gone);
+      ev_begin("bulk"); ev_int("n", n); ev_int("rooted", 0); ev_int("lost", lost); ev_int("twice", twice); ev_int("stale", stale); ev_int("gone", gone);
+      ev_str("exc", hc_exc); ev_int("line", cur_line); ev_end();
     } else if (hc_is(0, "stop")) {
       stop(current(GC)); observe("stop", 0, 0, 0, "");
     } else if (hc_is(0, "start")) {
